@@ -285,6 +285,8 @@ def run(rep, drv):
 		if bad or not same:
 			report('continuous families', '%s x=%r: %s%s' % (fam, x, '; '.join(bad), '' if same else ' | model formula gives %s' % mo), case, [n, nb], mo, bool(bad))
 	heavy_tails(rep)
+	outside_support(rep)
+	shifted_families(rep)
 
 
 def heavy_tails(rep):
@@ -309,6 +311,58 @@ def heavy_tails(rep):
 				if not (close(n2b, d2b, 1e-6) and close(nb, dnb, 1e-6)):
 					rep.diff('continuous families', '%s x=%r: complementary losses (first %r, second %r) != lower-tail integrals (%r, %r)' % (nm, x, nb, n2b, dnb, d2b), case,
 							 py=[float(nb), float(n2b)], model=None, oracle=True, theorem=THEOREM)
+			except Exception as e:
+				rep.diff('continuous families', '%s x=%r raised %s' % (nm, x, err_enum(e)), case, oracle=True, theorem=THEOREM)
+
+
+def outside_support(rep):
+	"""Arguments OUTSIDE the range the generic functions integrate over (ppf(1e-10) .. ppf(1 - 1e-10)): below the support of a non-negative
+	or bounded distribution, above a bounded support, far in a normal tail. There the definitions are elementary: below the support
+	E[(X-x)+] = E[X] - x, E[(x-X)+] = 0, 1/2 E[((X-x)+)^2] = (Var X + (E[X]-x)^2)/2; above it the mirror image."""
+	from stockpyl import loss_functions as lf
+	from scipy import stats
+	for nm, dist, xs in (('expon(scale=2)', stats.expon(scale=2), (-3.0, -0.5)), ('gamma(3,scale=2)', stats.gamma(3, scale=2), (-1.0,)),
+						 ('lognorm(0.5,scale=3)', stats.lognorm(0.5, scale=3), (-1.5,)), ('uniform(2,6)', stats.uniform(2, 6), (0.0, 1.5, 8.0, 9.5, 12.0)),
+						 ('norm(50,8)', stats.norm(50, 8), (-5.0, 110.0)), ('beta(2,3) on [1,5]', stats.beta(2, 3, loc=1, scale=4), (0.0, 6.5))):
+		m, v = float(dist.mean()), float(dist.var())
+		for x in xs:
+			case = {'family': 'outside-support', 'dist': nm, 'x': x}
+			rep.case('continuous families', case); rep.count('family:outside-support'); rep.tol_cmp += 4
+			below = x < m
+			want = [m - x, 0.0] if below else [0.0, x - m]
+			want2 = [0.5 * (v + (m - x) ** 2), 0.0] if below else [0.0, 0.5 * (v + (m - x) ** 2)]
+			try:
+				with warnings.catch_warnings():
+					warnings.simplefilter('ignore')
+					got = [float(t) for t in lf.continuous_loss(x, dist)]; got2 = [float(t) for t in lf.continuous_second_loss(x, dist)]
+				if not all(close(a, b, 1e-6) for a, b in zip(got + got2, want + want2)):
+					rep.diff('continuous families', '%s x=%r (outside the integration range): losses %r, second-order %r; the definitions give %r and %r' % (nm, x, got, got2, want, want2),
+							 case, py=got + got2, model=want + want2, oracle=True, theorem=THEOREM)
+			except Exception as e:
+				rep.diff('continuous families', '%s x=%r raised %s' % (nm, x, err_enum(e)), case, oracle=True, theorem=THEOREM)
+
+
+def shifted_families(rep):
+	"""Arbitrary continuous distributions include shifted and scaled members of the families that also have a closed form (a frozen SciPy
+	lognormal or gamma with loc != 0 is not the two-parameter distribution of the closed form)."""
+	from stockpyl import loss_functions as lf
+	from scipy import stats, integrate
+	for nm, dist in (('lognorm(0.3, loc=250, scale=e^5)', stats.lognorm(0.3, 250, math.exp(5))), ('lognorm(0.5, loc=-60, scale=50)', stats.lognorm(0.5, -60, 50)),
+					 ('gamma(3, loc=10, scale=2)', stats.gamma(3, loc=10, scale=2)), ('expon(loc=5, scale=2)', stats.expon(loc=5, scale=2)),
+					 ('norm(loc=-30, scale=4)', stats.norm(-30, 4)), ('uniform(loc=-3, scale=9)', stats.uniform(-3, 9))):
+		lo, hi = float(dist.ppf(1e-13)), float(dist.ppf(1 - 1e-13))
+		for q in (0.2, 0.5, 0.85):
+			x = float(dist.ppf(q))
+			case = {'family': 'shifted', 'dist': nm, 'x': x}
+			rep.case('continuous families', case); rep.count('family:shifted'); rep.tol_cmp += 4
+			try:
+				with warnings.catch_warnings():
+					warnings.simplefilter('ignore')
+					got = [float(t) for t in lf.continuous_loss(x, dist)] + [float(t) for t in lf.continuous_second_loss(x, dist)]
+				want = [integrate.quad(lambda y: (y - x) * dist.pdf(y), x, hi, limit=200)[0], integrate.quad(lambda y: (x - y) * dist.pdf(y), lo, x, limit=200)[0],
+						0.5 * integrate.quad(lambda y: (y - x) ** 2 * dist.pdf(y), x, hi, limit=200)[0], 0.5 * integrate.quad(lambda y: (x - y) ** 2 * dist.pdf(y), lo, x, limit=200)[0]]
+				if not all(close(a, b, 1e-6) for a, b in zip(got, want)):
+					rep.diff('continuous families', '%s x=%r: losses %r, the definitions by quadrature give %r' % (nm, x, got, want), case, py=got, model=want, oracle=True, theorem=THEOREM)
 			except Exception as e:
 				rep.diff('continuous families', '%s x=%r raised %s' % (nm, x, err_enum(e)), case, oracle=True, theorem=THEOREM)
 
